@@ -27,9 +27,10 @@ theorem linear_value {vals : List Val} {w : List Rat} {out : Val}
   split at h
   · cases h
   · rename_i rows hrows
+    dsimp only at h
     split at h
     · cases h
-      refine ⟨rows, rfl, rfl, by simp [linearOut], ?_⟩
+      refine ⟨rows, hrows, rfl, by simp [linearOut], ?_⟩
       intro s hs
       simp [linearOut]
     · cases h
@@ -135,7 +136,7 @@ theorem mixture_membership {vals : List Val} {w : List Rat} {idx : List Nat} {ou
             split at h
             · rename_i hall
               cases h
-              refine ⟨rows, S, mixtureOut rows idx S, rfl, ?_, rfl, by simp [mixtureOut], ?_⟩
+              refine ⟨rows, S, mixtureOut rows idx S, hrows, ?_, rfl, by simp [mixtureOut], ?_⟩
               · intro r hr
                 have := List.all_eq_true.mp hall r hr
                 simpa using this
@@ -224,7 +225,8 @@ theorem blend_refuses_length {t0 : List Cell} {rest : List (List Cell)} {w : Wei
     (hg : singleGuard (t0 :: rest).length w = .ok ()) (hm : parseMethod method = some m)
     (hlen : rest.any (·.length != t0.length) = true) :
     blend (t0 :: rest) w method idx = .error .valueError := by
-  simp [blend, blendPrep, hg, hm, hlen]
+  have hg' : singleGuard (rest.length + 1) w = .ok () := by simpa using hg
+  simp [blend, blendPrep, hg', hm, hlen]
 
 /-- triangles of different cell classes are refused -/
 theorem blend_refuses_kind {t0 : List Cell} {rest : List (List Cell)} {w : Weights} {method : String}
@@ -234,7 +236,8 @@ theorem blend_refuses_kind {t0 : List Cell} {rest : List (List Cell)} {w : Weigh
     (hk : rest.any (fun t => t.head?.map (·.kind) != t0.head?.map (·.kind)) = true) :
     blend (t0 :: rest) w method idx = .error .valueError := by
   have : t0.isEmpty = false := by cases t0 <;> simp_all
-  simp [blend, blendPrep, hg, hm, hlen, hk, this]
+  have hg' : singleGuard (rest.length + 1) w = .ok () := by simpa using hg
+  simp [blend, blendPrep, hg', hm, hlen, hk, this]
 
 /-- an unknown method name is refused -/
 theorem blend_refuses_method {ts : List (List Cell)} {w : Weights} {method : String}
